@@ -426,6 +426,88 @@ def gen_reg_case(rng, transports):
     return c
 
 
+def pinned_reg_cases(transports):
+    """run first in every run, whatever the seed: the classes of the property text, each one systematically --
+    overlapping words in every order (as one -w and as several), a host named twice, names that are string
+    prefixes of one another, zero-padded look-alikes, two-bracket words, every source of the default transport
+    (-R, PDSH_RCMD_TYPE, each member of the rank list alone and against every other), -l against user@, and the
+    rank after exclusion of the first / a middle / the last host"""
+    out = []
+    t1, t2, t3 = transports["r01"], transports["r02"], transports["r03"]
+
+    def mk(wargs, excl=(), l=None, R=None, envtype=None, loaded=("r01", "r02", "r03", "r07"), cmd=("true",), ls=None):
+        c = {"loaded": None, "env": {}, "excl": list(excl), "l": l, "R": R, "envtype": envtype,
+             "loaded_ids": list(loaded), "words": [], "cmd": list(cmd), "pinned": True}
+        argv = []
+        for ws in wargs:
+            argv += ["-w", ",".join(ws)]
+            c["words"] += split_top(",".join(ws))
+        if excl:
+            argv += ["-x", ",".join(excl)]
+        for x in (ls if ls is not None else ([l] if l is not None else [])):
+            argv += ["-l", x]
+        if R is not None:
+            argv += ["-R", R]
+        c["argv"] = argv + c["cmd"]
+        out.append(c)
+    # 1. first word wins, overlapping host sets, every order
+    ov = ["u1@n[1-3]", t2 + ":u2@n[2-4]", t3 + ":n[3-5]", "bob@n3", "n[1-5]"]
+    for k in (2, 3):
+        for perm in itertools.permutations(ov, k):
+            mk([list(perm)], l="root")
+    for perm in itertools.permutations(ov[:4], 3):
+        mk([[w] for w in perm])
+    for perm in itertools.permutations(ov[:4]):
+        mk([list(perm[:2]), list(perm[2:])], R=t1)
+    # 2. one host named twice by the same word / by a plain word first
+    mk([["u1@n1", "n1", "u2@n1"]])
+    mk([["n1", "u2@n1", t2 + ":n1"]])
+    mk([["u1@n[1-2]", "u2@n[1-2]", "n[1-2]"]])
+    # 3. names that are string prefixes of one another
+    pre = ["alice@n1", "n10", "bob@n100"]
+    for perm in itertools.permutations(pre):
+        mk([list(perm)])
+    for a, b in itertools.permutations(["n1", "n10", "n100", "n1x", "web", "web1"], 2):
+        if a.startswith(b) or b.startswith(a):
+            mk([["alice@" + a, b]], l="zed")
+            mk([[t2 + ":" + a, t3 + ":bob@" + b]])
+    for one in ("n1", "n10", "n100"):
+        mk([["u2@" + one, "u1@n[1-10]", "n100"]])
+        mk([["u1@n[9-11]", "u2@" + one, "n100", "n1"]])
+    # 4. zero-padded look-alikes are different hosts
+    for ws in (["u1@n01", "u2@n1"], ["u2@n1", "u1@n01"], ["u1@n[01-03]", "u2@n[1-3]"], ["u2@n[1-3]", "u1@n[01-03]"],
+               ["u1@n001", "n01", "bob@n1"], ["u1@n[08-10]", "u2@n[8-10]"], ["u1@n10", "u2@n[08-10]", "bob@n[8-10]"]):
+        mk([ws])
+    # 5. two-bracket words
+    for ws in (["u9@f[1-2]-[0-1]"], [t2 + ":f[1-2]-[0-1]", "u1@f1-0"], ["u1@f1-0", t2 + ":bob@f[1-2]-[0-1]"],
+               ["u1@g[0-1]x[2-3]", "u2@g0x2", "g1x3"], ["g1x3", "u2@g[0-1]x[2-3]"]):
+        mk([ws])
+    # 6. where the default transport comes from
+    rank_ids = {"mrsh": "r08", "rsh": "r06", "ssh": "r04", "exec": "r07"}
+    for a, b in itertools.combinations(sorted(rank_ids), 2):
+        mk([["h1", "u1@h2"]], loaded=("r01", "r02", "r03", rank_ids[a], rank_ids[b]))
+    for a in sorted(rank_ids):
+        mk([["h1", t2 + ":h2"]], loaded=("r01", "r02", "r03", rank_ids[a]))
+    mk([["h1", t2 + ":h2"]], loaded=("r01", "r02", "r03"))              # nothing of the rank list loaded
+    mk([["h1", "h2"]], loaded=("r01", "r02", "r03"))
+    for R in (None, t2, "nosuch"):
+        for ev in (None, t3, "nosuch"):
+            mk([["h1", t1 + ":h2", "u1@h3"]], R=R, envtype=ev, loaded=("r01", "r02", "r03", "r04", "r06", "r08"))
+    # 7. -l against user@
+    mk([["u1@h1", "h2", t2 + ":h3", t2 + ":u2@h4"]], l="bob")
+    mk([["u1@h1", "h2"]], ls=["bob", "x_y"], l="x_y")
+    mk([["u1@h1", "h2"]])
+    # 8. rank = position in the list that is left after the exclusions
+    six = ["n1", "n2", "n3", "n4", "n5", "n6"]
+    for ex in (["n1"], ["n6"], ["n3"], ["n2", "n4"], ["n1", "n2", "n3"], ["n1", "n6"], ["n5", "n6"]):
+        mk([["n[1-6]"]], excl=ex, cmd=("echo", "%n"))
+        mk([["u1@n[1-3]", t2 + ":n[4-6]"]], excl=ex, l="bob")
+        mk([["n[1-2]"], ["u2@n[3-4]", "n[5-6]"]], excl=ex)
+    mk([["u1@n[1-3]", "n[5-6]"]], excl=["n1"])
+    mk([["k[9-11]", "u1@h[01-03]"]], excl=["k10", "h02"])
+    return out
+
+
 def hostpart(w):
     """independent reading of [type:][user@]hosts, only used to GENERATE exclusions and targets"""
     if "@" in w:
@@ -475,7 +557,9 @@ def part_c(ctx, cov, dist, rng, repo, only=None):
     dist["reg_variant"] = " ".join(margs)
     n = 2000 if ctx.quick() else 20000
     recs = []
-    for c in ((gen_reg_case(rng, transports) for _ in range(n)) if only is None else only):
+    pinned = pinned_reg_cases(transports) if only is None else []
+    dist["reg_pinned"] = len(pinned)
+    for c in (itertools.chain(pinned, (gen_reg_case(rng, transports) for _ in range(n))) if only is None else only):
         files = [pool.by_id[i].file for i in c["loaded_ids"]]
         rng.shuffle(files)
         extra_env = {"PDSH_RCMD_TYPE": c["envtype"]} if c["envtype"] is not None else {}
@@ -651,12 +735,18 @@ def part_b(ctx, cov, dist, rng, repo, variant, only=None):
 
 # ------------------------------------------------------------------------------------- (d) rsh wire request
 
-PEER_ADDRS = ["127.9.17.%d" % i for i in range(1, 5)]
+PEER_PREFIX = "127.9.17."                      # canonical spelling in generated cases and replay files
+PEER_ADDRS = [PEER_PREFIX + "%d" % i for i in range(1, 5)]
 
 
 class RshPeer:
     """scripted rsh server: records the bytes received before its first reply, connects back to the
-    announced stderr port from a reserved port, answers "\\0", sends one line, closes"""
+    announced stderr port from a reserved port, answers "\\0", sends one line, closes.
+
+    Port 514 is fixed by the protocol, so two runs of this check at the same time (sweeps, several agents)
+    cannot both listen on the same loopback address: every run takes the first FREE group of four
+    addresses 127.19.X.1-4 (all of 127/8 is loopback); cases and replay files spell the canonical
+    127.9.17.N, `tr` maps them to the addresses of this run."""
 
     def __init__(self):
         import socket
@@ -664,13 +754,39 @@ class RshPeer:
         self.got = []
         self.lock = threading.Lock()
         self.socks = []
-        for a in PEER_ADDRS:
-            s = socket.socket()
-            s.setsockopt(socket.SOL_SOCKET, socket.SO_REUSEADDR, 1)
-            s.bind((a, 514))
-            s.listen(16)
-            self.socks.append(s)
-            threading.Thread(target=self.accept_loop, args=(s, a), daemon=True).start()
+        last = None
+        for attempt in range(120):
+            prefix = PEER_PREFIX if attempt == 0 else "127.19.%d." % ((os.getpid() * 7 + attempt * 13) % 250 + 2)
+            socks = []
+            try:
+                for i in range(1, 5):
+                    s = socket.socket()
+                    s.setsockopt(socket.SOL_SOCKET, socket.SO_REUSEADDR, 1)
+                    socks.append(s)
+                    s.bind((prefix + str(i), 514))
+                    s.listen(16)
+            except OSError as e:
+                last = e
+                for s in socks:
+                    s.close()
+                continue
+            self.prefix = prefix
+            self.socks = socks
+            break
+        else:
+            raise last
+        for i, s in enumerate(self.socks):
+            threading.Thread(target=self.accept_loop, args=(s, prefix + str(i + 1)), daemon=True).start()
+
+    def tr(self, x):
+        """canonical 127.9.17.N -> this run's address (strings, lists and dict keys)"""
+        if isinstance(x, str):
+            return x.replace(PEER_PREFIX, self.prefix)
+        if isinstance(x, list):
+            return [self.tr(y) for y in x]
+        if isinstance(x, dict):
+            return {self.tr(k): v for k, v in x.items()}
+        return x
 
     def accept_loop(self, s, addr):
         import threading
@@ -706,6 +822,10 @@ class RshPeer:
                     except OSError:
                         back.close()
                         back = None
+            if backok is False:
+                # pdsh sits in xpoll until its listening socket or this one becomes readable: nothing more will
+                # come; what was received so far is the observation
+                c.settimeout(0.5)
             while data.count(b"\0") < 4:
                 b = c.recv(65536)
                 if not b:
@@ -713,6 +833,8 @@ class RshPeer:
                 data += b
             with self.lock:
                 self.got.append((addr, peer[1], data, backok))
+            if data.count(b"\0") < 4:
+                return
             c.sendall(b"\0")
             c.sendall(b"ok\n")
         except OSError:
@@ -744,7 +866,7 @@ def part_d(ctx, cov, dist, rng, repo, only=None):
     luser = pwd.getpwuid(os.getuid()).pw_name
     n = 60 if ctx.quick() else 500
     dist["rsh"] = 0
-    nviol0 = len(ctx.violations)
+    recs, slow = [], 0
     try:
         def gen():
             addrs = rng.sample(PEER_ADDRS, rng.choice([1, 2, 3]))
@@ -769,9 +891,12 @@ def part_d(ctx, cov, dist, rng, repo, only=None):
             return {"addrs": addrs, "words": words, "want": want, "l": l, "cmd": cmd}
 
         def sweep():
-            """one request for EVERY value of  strlen(luser)+1+strlen(ruser)+1+strlen(cmd)  in the windows
-            [c-8, c+8] around LINEBUFSIZE (generated from dsh.h of the tree under test) and 1024, 4096, 8192,
-            65536, for two (luser, ruser) pairs of different lengths"""
+            """one request for EVERY value of  strlen(luser)+1+strlen(ruser)+1+strlen(cmd)  in a window around each
+            buffer size c = LINEBUFSIZE (generated from dsh.h of the tree under test), 256, 512, 1024, 4096, 8192,
+            65536.  With the local user as remote user the window is [c-14, c+18+2*(len(luser)-4)]: it contains
+            c +-8 for each of the totals a maintainer might compare with a buffer size -- the three strings with
+            or without the last NUL, the command alone, the whole request including the port field; with a longer
+            remote user [c-8, c+8]"""
             m = re.search(r"def LINEBUFSIZE : Nat := (\d+)", open(os.path.join(os.path.dirname(HARNESS), "lean", "PdshVerif", "Gen",
                                                                           "Dsh.lean")).read())
             lbs = int(m.group(1)) if m else 2048
@@ -779,66 +904,135 @@ def part_d(ctx, cov, dist, rng, repo, only=None):
             out = []
             for ruser in (None, "a_longer_remote_user"):
                 ru = ruser or luser
-                for c in sorted({lbs, 1024, 4096, 8192, 65536}):
-                    for s_ in range(c - 8, c + 9):
+                for c in sorted({lbs, 256, 512, 1024, 4096, 8192, 65536}):
+                    lo, hi = (c - 14, c + 8 + len(luser) + len(ru) + 2) if ruser is None else (c - 8, c + 8)
+                    for s_ in range(lo, hi + 1):
                         k = s_ - len(luser) - len(ru) - 2
                         out.append({"addrs": [PEER_ADDRS[0]], "words": [PEER_ADDRS[0]], "want": {PEER_ADDRS[0]: None}, "l": ruser,
                                     "cmd": ["e " + "y" * (k - 3) + "Z"], "sweep": s_})
             return out
+
+        def pinned():
+            """run first in every run: (1) the reserved port directly below the primary socket's port is busy (this
+            check holds every even port of 960..1022 while pdsh runs), so rresvport() has to move on and the port
+            announced in the request must be the one it really got; (2) remote users of every legal shape, from -l
+            and from user@"""
+            out = []
+            a1, a2, a3 = PEER_ADDRS[:3]
+            for words, l, cmd in (([a1], None, ["true"]), ([a1, "bob@" + a2, a3], "u2", ["echo", "a  b", "%h%%"]),
+                                  ([a2], None, ["e", "y" * 2100]), (["x_y@" + a3, a1], None, ["sh", "-c", "x;y  z"])):
+                want = {w.split("@")[-1]: (w.split("@")[0] if "@" in w else None) for w in words}
+                out.append({"addrs": [w.split("@")[-1] for w in words], "words": words, "want": want, "l": l, "cmd": cmd,
+                            "busy": True})
+            shapes = ["a", "x_y", "u-1", "u.v", "U9", "9lives", "svc$", "_", "a" * 31, "b" * 32, "c" * 33, "d" * 64, "e" * 255,
+                      "root", luser]
+            for i, u in enumerate(shapes):
+                if i % 2:
+                    out.append({"addrs": [a1, a2], "words": [u + "@" + a1, a2], "want": {a1: u, a2: None}, "l": None,
+                                "cmd": ["id"], "shape": True})
+                else:
+                    out.append({"addrs": [a1, a2], "words": [a1, "bob@" + a2], "want": {a1: None, a2: "bob"}, "l": u,
+                                "cmd": ["id"], "shape": True})
+            return out
+
+        def hold_ports(ports):
+            import socket
+            held = []
+            for p_ in ports:
+                s_ = socket.socket()
+                try:
+                    s_.bind(("0.0.0.0", p_))           # bound, not listening: a connection attempt is refused
+                    held.append(s_)
+                except OSError:
+                    s_.close()                         # somebody else has it: busy all the same
+            return held
         import itertools as _it
-        for g in (_it.chain(sweep(), (gen() for _ in range(n))) if only is None else only):
-            if len(ctx.violations) - nviol0 >= 3:
-                break               # a broken handshake makes every run wait for time-outs
+        for g in (_it.chain(pinned(), sweep(), (gen() for _ in range(n))) if only is None else only):
+            if slow >= 3:
+                break
+            g = dict(g, addrs=peer.tr(g["addrs"]), words=peer.tr(g["words"]), want=peer.tr(g["want"]))
             addrs, words, want, l, cmd = g["addrs"], g["words"], g["want"], g["l"], g["cmd"]
             argv = ["-R", "rsh", "-w", ",".join(words)] + (["-l", l] if l else []) + cmd
-            try:
-                q = subprocess.run([exe] + argv, env={"PATH": "/usr/bin:/bin"}, stdout=subprocess.PIPE,
-                                   stderr=subprocess.PIPE, stdin=subprocess.DEVNULL, timeout=60, cwd=ctx.scratch)
-            except subprocess.TimeoutExpired:
+            held = hold_ports(range(1022, 958, -2)) if g.get("busy") else []
+            q = None
+            for attempt in (1, 2):
+                try:
+                    q = subprocess.run([exe] + argv, env={"PATH": "/usr/bin:/bin"}, stdout=subprocess.PIPE,
+                                       stderr=subprocess.PIPE, stdin=subprocess.DEVNULL, timeout=60, cwd=ctx.scratch)
+                    break
+                except subprocess.TimeoutExpired:
+                    if attempt == 1:
+                        peer.take()         # a time-out alone is tried once more before it is reported
+            for s_ in held:
+                s_.close()
+            if q is None:
                 ctx.offender("timeout", "pdsh -R rsh against the scripted peer does not finish", {"argv": argv, "gen": g})
                 peer.take()
+                slow += 1
                 continue
             got = peer.take()
+            if g.get("busy"):
+                dist["rsh_busy_port_cases"] = dist.get("rsh_busy_port_cases", 0) + 1
+            if g.get("shape"):
+                dist["rsh_user_shape_cases"] = dist.get("rsh_user_shape_cases", 0) + 1
             case = {"argv": argv, "gen": g, "rc": q.returncode, "stderr": q.stderr.decode("latin-1")[-300:]}
-            lines = []
-            for addr, _, data, backok in got:
-                lines.append("parse " + bh(data))
-            parsed = ctx.model("rcmd", "".join(x + "\n" for x in lines), args=["spec"]) if lines else []
-            seen = {}
-            for (addr, _, data, backok), pl in zip(got, parsed):
-                cov["evaluations"] += 1
-                dist["rsh"] += 1
-                if not pl.startswith("ok "):
-                    ctx.offender("rsh:malformed-request", "the rsh request for %s (%d bytes) is not four NUL-terminated "
-                                 "fields: %r ..." % (addr, len(data), data[:80]), dict(case, request_len=len(data)))
-                    continue
-                pf, lu, ru, cm = [unhx(x) for x in pl.split()[1:]]
-                if g.get("sweep") is not None:
-                    # the total the sweep is about, measured on what the peer really received
-                    dist.setdefault("rsh_sweep_lengths", {}).setdefault("luser=%d,ruser=%d" % (len(lu), len(ru)), []).append(
-                        len(lu) + 1 + len(ru) + 1 + len(cm))
-                exp_ru = want.get(addr) or l or luser
-                exp_cmd = " ".join(cmd)
-                okport = (pf == "" and backok is None) or (pf.isdigit() and backok is True)
-                if not (okport and lu == luser and ru == exp_ru and cm == exp_cmd):
-                    ctx.offender("rsh:request", "rsh request for %s is (port %r, local %r, remote %r, command %r, stderr "
-                                                "channel connected: %s); specified (a listening port, %r, %r, %r)" % (
-                        addr, pf, lu, ru, cm[:60] + ("..." if len(cm) > 60 else ""), backok, luser, exp_ru,
-                        exp_cmd[:60] + ("..." if len(exp_cmd) > 60 else "")), dict(case, request_len=len(data), command_len=len(cm),
-                                                                                    expected_command_len=len(exp_cmd)))
-                dist.setdefault("rsh_request_len", {})
-                bucket = "<=1024" if len(data) <= 1024 else "<=2048" if len(data) <= 2048 else "<=4096" if len(data) <= 4096 \
-                    else "<=8192" if len(data) <= 8192 else ">8192"
-                dist["rsh_request_len"][bucket] = dist["rsh_request_len"].get(bucket, 0) + 1
-                # correspondence with the model of xrcmd's write order
-                ml = ctx.model("rcmd", "writes %s %s %s %s\n" % (pf if pf else "none", hx(luser), hx(exp_ru), hx(exp_cmd)),
-                               args=["model", "unchanged"])
-                if ml[0] != bh(data):
-                    ctx.disagreement("rsh request model vs xrcmd", "peer got %s, model %s" % (bh(data), ml[0]), case)
-                seen[addr] = seen.get(addr, 0) + 1
-            for a in addrs:
-                if seen.get(a, 0) != 1 and not any(g[0] == a for g in got):
-                    ctx.offender("rsh:no-connection", "target %s was not contacted through rsh" % a, case)
+            recs.append((g, case, got))
+            # a broken handshake makes every run wait for time-outs: stop generating after three such runs (the
+            # verdicts come from the specification below; this only bounds the time)
+            if any(data.count(b"\0") < 4 or backok is False for _, _, data, backok in got) or len(got) < len(addrs):
+                slow += 1
+        # verdicts, in two batches: what the specification parses out of each received request, and what the
+        # model of xrcmd's write order sends for the specified fields
+        flat = [(g, case, x) for g, case, got in recs for x in got]
+        parsed = ctx.model("rcmd", "".join("parse " + bh(x[2]) + "\n" for _, _, x in flat), args=["spec"]) if flat else []
+        wl = []
+        for (g, case, (addr, sport, data, backok)), pl in zip(flat, parsed):
+            pf = unhx(pl.split()[1]) if pl.startswith("ok ") else ""
+            wl.append("writes %s %s %s %s\n" % (pf if pf else "none", hx(luser), hx(g["want"].get(addr) or g["l"] or luser),
+                                                hx(" ".join(g["cmd"]))))
+        written = ctx.model("rcmd", "".join(wl), args=["model", "unchanged"]) if wl else []
+        seen = {}
+        for (g, case, (addr, sport, data, backok)), pl, ml in zip(flat, parsed, written):
+            cov["evaluations"] += 1
+            dist["rsh"] += 1
+            pf0 = data.split(b"\0")[0]
+            if pf0.isdigit() and int(pf0) != sport - 1:
+                # rresvport() had to pass over a busy port between the primary socket's and the stderr socket's
+                dist["rsh_stderr_port_not_adjacent"] = dist.get("rsh_stderr_port_not_adjacent", 0) + 1
+                if g.get("busy"):
+                    dist["rsh_busy_port_effective"] = dist.get("rsh_busy_port_effective", 0) + 1
+            seen[(id(case), addr)] = seen.get((id(case), addr), 0) + 1
+            if not pl.startswith("ok "):
+                ctx.offender("rsh:malformed-request", "the rsh request for %s (%d bytes) is not four NUL-terminated "
+                             "fields: %r ... (stderr channel connected: %s)" % (addr, len(data), data[:80], backok),
+                             dict(case, request_len=len(data)))
+                continue
+            pf, lu, ru, cm = [unhx(x) for x in pl.split()[1:]]
+            if g.get("sweep") is not None:
+                # the total the sweep is about, measured on what the peer really received
+                dist.setdefault("rsh_sweep_lengths", {}).setdefault("luser=%d,ruser=%d" % (len(lu), len(ru)), []).append(
+                    len(lu) + 1 + len(ru) + 1 + len(cm))
+            exp_ru = g["want"].get(addr) or g["l"] or luser
+            exp_cmd = " ".join(g["cmd"])
+            okport = (pf == "" and backok is None) or (pf.isdigit() and backok is True)
+            if not (okport and lu == luser and ru == exp_ru and cm == exp_cmd):
+                ctx.offender("rsh:request", "rsh request for %s is (port %r, local %r, remote %r, command %r, stderr "
+                                            "channel connected: %s); specified (a listening port, %r, %r, %r)" % (
+                    addr, pf, lu, ru, cm[:60] + ("..." if len(cm) > 60 else ""), backok, luser, exp_ru,
+                    exp_cmd[:60] + ("..." if len(exp_cmd) > 60 else "")), dict(case, request_len=len(data), command_len=len(cm),
+                                                                                expected_command_len=len(exp_cmd)))
+            dist.setdefault("rsh_request_len", {})
+            bucket = "<=1024" if len(data) <= 1024 else "<=2048" if len(data) <= 2048 else "<=4096" if len(data) <= 4096 \
+                else "<=8192" if len(data) <= 8192 else ">8192"
+            dist["rsh_request_len"][bucket] = dist["rsh_request_len"].get(bucket, 0) + 1
+            # correspondence with the model of xrcmd's write order
+            if ml != bh(data):
+                ctx.disagreement("rsh request model vs xrcmd", "peer got %s, model %s" % (bh(data)[:400], ml[:400]), case)
+        for g, case, got in recs:
+            for a in g["addrs"]:
+                if seen.get((id(case), a), 0) != 1:
+                    ctx.offender("rsh:no-connection", "target %s was contacted %d times through rsh" % (
+                        a, seen.get((id(case), a), 0)), case)
     finally:
         peer.close()
 
